@@ -91,6 +91,7 @@ const c19PerKeyCap = 3
 func (f *c19Findings) flush(w *fw.W) {
 	sort.Strings(f.keys)
 	for _, k := range f.keys {
+		w.SetAdd("finding_keys", k)
 		c19KeySeen[k]++
 		if c19KeySeen[k] > c19PerKeyCap && !w.Verbose {
 			w.Count("violations_not_recorded_again_for_a_known_key", 1)
